@@ -170,12 +170,13 @@ def step (c impl : String) : String :=
         | [o] => if o.startsWith "-" then - (Int.ofNat ((o.drop 1).toString.toNat?.getD 0)) else Int.ofNat (o.toNat?.getD 0)
         | _ => 0
       if api == "read" then
-        match memReadPage expected ps off with
-        | .panic =>
-          if impl.startsWith "PANIC" then specViol s!"[F14a negative offset token panics] Read/m offset {off}: {impl}"
-          else if isErr then ok "tok-negative-offset-rejected"
-          else modelDiff "PANIC"
-        | .page xs _ => if pageOf == some xs then ok "tok-negative-offset" else modelDiff (fmtPage xs)
+        -- the property, independently of the model: a negative offset must be rejected
+        if impl.startsWith "PANIC" then specViol s!"[F22a negative offset token panics] Read/m offset {off}: {impl}"
+        else if !isErr then specViol s!"[F22a negative offset token accepted] Read/m offset {off}: {impl}"
+        else match memReadPage expected ps off with
+          | .invalidToken => if impl == "err:invalid_token" then ok "tok-negative-offset-rejected" else modelDiff "err:invalid_token"
+          | .panic => modelDiff "PANIC"
+          | .page xs _ => modelDiff ("page:" ++ fmtPage xs)
       else
         let (xs, _) := memClampPage expected ps off
         if isErr then ok "tok-negative-offset-rejected"
@@ -187,15 +188,14 @@ def step (c impl : String) : String :=
         | [o] => Int.ofNat (o.toNat?.getD 0)
         | _ => 0
       if api == "read" then
-        match memReadPage expected ps off with
-        | .panic => modelDiff "panic"
-        | .page xs _ =>
-          if isErr then ok "tok-offset-beyond-end-rejected"
-          else if pageOf == some [] then ok "tok-offset-beyond-end-empty"
-          else if pageOf == some xs then
-            specViol s!"[F14b offset token beyond the end restarts at the first item] Read/m offset {off} of {n} items: {impl}"
-          else if impl.startsWith "PANIC" then specViol s!"Read/m panics on offset token {off}: {impl}"
-          else modelDiff ("page:" ++ fmtPage xs)
+        -- the property, independently of the model: rejected, or the (empty) window at that offset
+        if impl.startsWith "PANIC" then specViol s!"Read/m panics on offset token {off}: {impl}"
+        else if !isErr && pageOf != some [] then
+          specViol s!"[F22b offset token beyond the end restarts at the first item] Read/m offset {off} of {n} items: {impl}"
+        else match memReadPage expected ps off with
+          | .invalidToken => if impl == "err:invalid_token" then ok "tok-offset-beyond-end-rejected" else modelDiff "err:invalid_token"
+          | .panic => modelDiff "PANIC"
+          | .page xs _ => if pageOf == some xs then ok "tok-offset-beyond-end-empty" else modelDiff ("page:" ++ fmtPage xs)
       else
         let (xs, _) := memClampPage expected ps off
         if isErr then ok "tok-offset-beyond-end-rejected"
